@@ -217,6 +217,9 @@ func H10_sessions() {
 			// clean sessions carry a will with a zero-length payload (legal in 3.1.1)
 			cp.CFlags |= 4
 			cp.WillTopic, cp.WillMsg = []byte("w"), nil
+			if vrtBool("will_topic_in_dollar_space") {
+				cp.WillTopic = []byte("$w") // a will nobody can be handed: its publication fails, the teardown goes on
+			}
 		}
 		c, ack := b.connect(cp)
 		sp := !clean && present[mi]
@@ -372,4 +375,45 @@ func H09_pipelined() {
 		vrtAssert("C09.will_topic", vrtBytesEq(got[i].Topic, []byte("gone")))
 	}
 	vrtReach("C09.pipelined")
+}
+
+// H10_broken_reconnect: a reconnect of a client with stored state dies after
+// the broker has read the CONNECT and before the CONNACK can be written. If
+// that attempt asked for CleanSession=0 the stored session and its
+// subscription survive it; if it asked for CleanSession=1 the old state is
+// gone and nothing of the attempt's own clean session may be resumed later.
+func H10_broken_reconnect() {
+	b := vrtBroker("mockSuccess")
+	wit, _ := b.connect(vrtConnectPkt([]byte("wit"), true))
+	a, _ := b.connect(vrtConnectPkt([]byte("x"), false))
+	q := vrtByte("q")
+	vrtAssume(q <= 1)
+	vrtExchange(a, &specPkt{Typ: specSUBSCRIBE, ID: 1, Topics: [][]byte{[]byte("t")}, QoS: []byte{q}})
+	vrtEnd(a, vrtChoice("end", 2))
+	// the broken attempt: nothing the broker writes gets through
+	attemptClean := vrtBool("broken_attempt_clean")
+	c := b.open()
+	c.mu.Lock()
+	c.failWrites = true
+	c.mu.Unlock()
+	c.peerSend(specEncode(vrtConnectPkt([]byte("x"), attemptClean)))
+	vrtQuiesce()
+	c.peerClose()
+	vrtQuiesce()
+	vrtAssert("C10.connection_closed", c.isClosed())
+	wit.peerTake()
+	d, ack := b.connect(vrtConnectPkt([]byte("x"), false))
+	vrtAssert("C10.session_present_flag", vrtIsConnack(ack, !attemptClean, 0))
+	vrtExchange(wit, &specPkt{Typ: specPUBLISH, Flags: 2, ID: 60, Topic: []byte("t"), Payload: []byte("1")})
+	got, ok := vrtParse(d.peerTake())
+	vrtAssert("C10.stream_wellformed", ok)
+	want := 1
+	if attemptClean {
+		want = 0
+	}
+	vrtAssert("C10.restored_subscription_delivers", len(got) == want)
+	if want == 1 && len(got) == 1 {
+		vrtAssert("C10.restored_subscription_qos", (got[0].Flags>>1)&3 == q)
+	}
+	vrtReach("C10.broken_reconnect")
 }
